@@ -64,6 +64,7 @@ class FleetStore(Store):
         self._weighted_sum = 0.0
         self.time_averaged_num_of_items_in_store = 0.0  # Time-averaged number of items in the store
         self.activate_fleet= self.env.event()  # Event to activate the fleet when items are available
+        self._num_items_in_trip = 0  # leading items of self.items that are already being transported
         
         self.env.process(self.fleet_activation_process())  # Start the fleet activation process
 
@@ -91,13 +92,16 @@ class FleetStore(Store):
             
             print(f"T={self.env.now:.2f}: Fleet activation process triggered.")
             
-            if self.items:
-                print(f"T={self.env.now:.2f}: Fleet activated with {len(self.items)} items ready.")
-                self.env.process(self.move_to_ready_items(self.items))
-                #self.env.process(self.move_to_ready_items(self.items))
-                if self.activate_fleet.triggered:
-                    #print("yes")
-                    self.activate_fleet = self.env.event()  # Reset the event for next activation
+            if self.activate_fleet.triggered:
+                #print("yes")
+                self.activate_fleet = self.env.event()  # Reset the event for next activation
+            # items that are already on a trip stay in self.items until they arrive; only the
+            # items loaded since the last departure leave now (as a snapshot, not the live list)
+            waiting_items = self.items[self._num_items_in_trip:]
+            if waiting_items:
+                print(f"T={self.env.now:.2f}: Fleet activated with {len(waiting_items)} items ready.")
+                self._num_items_in_trip += len(waiting_items)
+                self.env.process(self.move_to_ready_items(waiting_items))
 
     def reserve_put(self, priority=0):
         """
@@ -712,6 +716,7 @@ class FleetStore(Store):
                 
                 item_index = self.items.index(item)
                 item_to_put = self.items.pop(item_index)  # Remove the first item
+                self._num_items_in_trip -= 1
                
                 if len(self.ready_items) < self.capacity:
                     self.ready_items.append(item_to_put)
